@@ -248,8 +248,7 @@ pub mod srat {
         let uid: [u8; 4] = kani::any();
         let clock: u32 = kani::any();
         let pd: u32 = kani::any();
-        let mut r = RintcAffinity::new(uid, clock); // .proximity_domain(pd) once the field exists
-        kani::assume(pd == 0);
+        let mut r = RintcAffinity::new(uid, clock).proximity_domain(pd);
         if enabled {
             r = r.enabled();
         }
